@@ -260,8 +260,12 @@ theorem esteps_condExprM (g : Globals) : ∀ (lc : LogicCond) (s : St), ESteps s
                   obtain ⟨rr, s3⟩ := res
                   exact (h3.trans h4).tail (EStep.incEmit s3 _ rfl rfl rfl (by intro v hv; simp [Instr.usesValue] at hv) rfl)
 
-theorem esteps_ifCondCalc (g : Globals) (c : IfCond) (lb le ln : Name) (isElse : Bool) (s : St) :
-    ESteps s (ifCondCalc g c lb le ln isElse s) := by
+/-- `if_condition_calculation`: an expression-level chain, then at most one branch instruction
+whose targets are the begin label and the else / end label -/
+theorem ifCondCalc_split (g : Globals) (c : IfCond) (lb le ln : Name) (isElse : Bool) (s : St) :
+    ∃ s1, ESteps s s1 ∧ (ifCondCalc g c lb le ln isElse s = s1 ∨
+      ∃ i : Instr, ifCondCalc g c lb le ln isElse s = s1.push i ∧ i.targets = [lb, if isElse then le else ln] ∧
+        i.writes = none ∧ i.declares = none ∧ i.setsLabel = none ∧ i.usesValue = none ∧ i.isRet = false) := by
   unfold ifCondCalc
   cases c with
   | single e =>
@@ -271,13 +275,19 @@ theorem esteps_ifCondCalc (g : Globals) (c : IfCond) (lb le ln : Name) (isElse :
     | mk a s1 =>
       rw [he] at h1
       cases a with
-      | none => exact h1
-      | some r => exact h1.tail (EStep.branch s1 _ rfl rfl rfl rfl rfl)
+      | none => exact ⟨s1, h1, Or.inl rfl⟩
+      | some r => exact ⟨s1, h1, Or.inr ⟨_, rfl, rfl, rfl, rfl, rfl, rfl, rfl⟩⟩
   | logic lc =>
     dsimp only
     have h1 := esteps_condExprM g lc s
     generalize condExprM g lc s = res at h1
     obtain ⟨reg, s1⟩ := res
-    exact h1.tail (EStep.branch s1 _ rfl rfl rfl rfl rfl)
+    exact ⟨s1, h1, Or.inr ⟨_, rfl, rfl, rfl, rfl, rfl, rfl, rfl⟩⟩
+
+theorem esteps_ifCondCalc (g : Globals) (c : IfCond) (lb le ln : Name) (isElse : Bool) (s : St) :
+    BSteps s (ifCondCalc g c lb le ln isElse s) := by
+  obtain ⟨s1, h1, h | ⟨i, h, _, hw, hd, hl, hu, hr⟩⟩ := ifCondCalc_split g c lb le ln isElse s
+  · exact ⟨s1, h1, Or.inl h⟩
+  · exact ⟨s1, h1, Or.inr ⟨i, h, hw, hd, hl, hu, hr⟩⟩
 
 end SemVerif
